@@ -15,6 +15,7 @@
 #include <glm/gtx/dual_quaternion.hpp>
 #include "glmx.hpp"
 #include <array>
+#include <type_traits>
 #include <cfloat>
 using namespace glmx;
 
@@ -186,7 +187,7 @@ template <typename F> static void op_axisangle(const Case& c, Outcome& o) {
     CHK(38, dqq(toL(g), hmul(toL(q0), qr)), 12 * u + 2 * nd, 4, "rotate(q0,a,n) is not q0*angleAxis(a,n)");
     CHK(39, dqq(toL(glm::rotate(Q::wxyz(1, 0, 0, 0), a, n)), qr), 4 * u + nd, 5, "rotate(identity,a,n) is not (cos a/2, n sin a/2)"); }
   // exp of the pure quaternion (0, n a/2) is the same unit quaternion
-  { F h = a * F(0.5); Q g = glm::exp(Q::wxyz(0, n.x * h, n.y * h, n.z * h)); CHK(40, dqq(toL(g), fabsl((L)h) < (L)std::numeric_limits<F>::epsilon() ? LQ{1, 0, 0, 0} : qr), 8 * u + nd, 6, "exp((0, n a/2)) is not (cos a/2, n sin a/2)"); }
+  { F h = a * F(0.5); Q g = glm::exp(Q::wxyz(0, n.x * h, n.y * h, n.z * h)); CHK(40, dqq(toL(g), qr), 8 * u + nd, 6, "exp((0, n a/2)) is not (cos a/2, n sin a/2)"); }
   // gtx rotate_vector: rotate(v, a, n) through the axis-angle matrix
   CHK(41, dvv(toL(V3(glm::rotate(v, a, n))), rv), (32 * u + 4 * nd) * vn, 7, "gtx rotate(v,a,n) is not the Rodrigues rotation of v");
   { glm::vec<4, F> g = glm::rotate(glm::vec<4, F>(v, F(1)), a, n); CHK(42, dvv(toL(V3(g)), rv), (32 * u + 4 * nd) * vn, 8, "gtx rotate(vec4,a,n) is not the Rodrigues rotation"); if (!(g.w == 1)) { o.bad(9, "gtx rotate(vec4,a,n) changed w"); return; } }
@@ -244,7 +245,7 @@ template <typename F> static void op_twovec(const Case& c, Outcome& o) {
   bool opposite = colinear && cs < 0, parallel = colinear && cs > 0;
   // cos(theta/2): the quaternion (1+cos, sin n) = 2 cos(theta/2) (cos(theta/2), sin(theta/2) n) is normalised by 2cos(theta/2),
   // so the rounding of 1+cos and of the cross product is amplified by 1/cos(theta/2)
-  L ch = opposite ? 0 : parallel ? 1 : sqrtl(fmaxl((1 + cs) / 2, 0)); if (!opposite && !parallel) { L sh = vlen(vcross(ah, bh)) / 2; if (ch < 0.1L) ch = sh / sqrtl(1 - ch * ch > 0 ? 1 - ch * ch : 1); }
+  L sn = vlen(vcross(ah, bh)); L ch = opposite ? 0 : parallel ? 1 : cs < 0 ? sinl(atan2l(sn, -cs) / 2) : cosl(atan2l(sn, cs) / 2);
   o.cls(opposite ? 2 : parallel ? 1 : ch < 1e-2L ? 3 : 0);
   L amp = opposite ? 1 : 1 / ch; L tol = 16 * u * amp; if (tol > 2.5L) tol = 2.5L;
   { Q q = Q(a, b); LQ g = toL(q); o.res(FT<F>::bits(q.w), FT<F>::bits(q.x));
@@ -262,7 +263,8 @@ template <typename F> static void op_twovec(const Case& c, Outcome& o) {
   { V3 an((F)ah.x, (F)ah.y, (F)ah.z), bn((F)bh.x, (F)bh.y, (F)bh.z); if (opposite) bn = V3(-an.x, -an.y, -an.z); if (parallel) bn = an;
     LV anl = toL(an), bnl = toL(bn); L nd = fabsl(vdot(anl, anl) - 1) + fabsl(vdot(bnl, bnl) - 1);
     Q q = glm::rotation(an, bn); LQ g = toL(q);
-    CHK(67, fabsl(qn2(g) - 1), (8 * u + 2 * nd) * (amp < 1e6L ? amp : 1e6L) + 8 * u, 3, "gtx rotation(u,v) is not a unit quaternion");
+    // (s/2, (u x v)/s) with s^2 = 2(1+cos): the rounding of 1+cos enters |q|^2 relative to 1+cos = 2cos^2(theta/2)
+    CHK(67, fabsl(qn2(g) - 1), fminl((8 * u + 2 * nd) * amp * amp, 1e3L) + 8 * u, 3, "gtx rotation(u,v) is not a unit quaternion");
     LV r = rotv(qhat(g), vhat(anl)); L t2 = (16 * u + 2 * nd) * amp; if (t2 > 2.5L) t2 = 2.5L;
     CHK(68, dvv(r, vhat(bnl)), t2, 4, "gtx rotation(u,v) does not rotate u onto v"); }
 }
@@ -309,7 +311,7 @@ template <typename F> static void op_euler3(const Case& c, Outcome& o) {
   LM ref = mulmm(mulmm(toL3(single_axis<F>(ax[0], a)), toL3(single_axis<F>(ax[1], b))), toL3(single_axis<F>(ax[2], cc)));
   // each entry is a sum of at most two products of three sines/cosines (each within an ulp); the factors carry u/2 each
   L e = dmm(toL3(m), ref); if (!(e <= 16 * u)) { std::snprintf(msg, sizeof msg, "%s(a,b,c) is not the product of its single-axis factors", ORDER3NAME[ord]); o.res(b64((double)e)); o.exp(b64((double)(16 * u))); o.bad(1 + ord, msg); return; }
-  MEAS(80 - 80 + 56 + 0, "eulerAngleABC(a,b,c) vs product of single-axis factors", e, 16 * u);
+  MEAS(56, "eulerAngleABC(a,b,c) vs product of single-axis factors", e, 16 * u);
   if (!pad_ok(m)) { std::snprintf(msg, sizeof msg, "%s: last row/column is not that of the identity", ORDER3NAME[ord]); o.bad(20 + ord, msg); return; }
   if (ord >= 12) return;
   F t1, t2, t3; extract3<F>(ord, m, t1, t2, t3); M4 m2 = build3<F>(ord, t1, t2, t3);
@@ -372,7 +374,7 @@ template <typename F> static void op_layout(const Case& c, Outcome& o) {
   { glm::qua<G> g(q); Q a(g); glm::qua<G> g2 = glm::qua<G>::wxyz((G)w, (G)x, (G)y, (G)z);
     if (!(g.w == g2.w && g.x == g2.x && g.y == g2.y && g.z == g2.z)) { o.bad(5, "converting constructor qua<U>(qua<T>) permutes members"); return; }
     if (sizeof(F) == 4 && !same(a)) { o.bad(6, "float -> double -> float conversion changes named members"); return; } }
-  { glm::qua<F, glm::highp> h(q); glm::qua<F, glm::mediump> mq(h); if (!(mq.w == w || w != w) || !(mq.x == x || x != x) || !(mq.y == y || y != y) || !(mq.z == z || z != z)) { o.bad(7, "qualifier converting constructor permutes members"); return; } }
+  { glm::qua<F, glm::highp> h(q); glm::qua<F, glm::mediump> mq(h); if (!(mq.w == w && mq.x == x && mq.y == y && mq.z == z)) { o.bad(7, "qualifier converting constructor permutes members"); return; } }
   // memory order: the first word is w under GLM_FORCE_QUAT_DATA_WXYZ, x otherwise; operator[] and value_ptr follow memory
   { const F* p = glm::value_ptr(q); if ((const void*)p != (const void*)&q) { o.bad(8, "value_ptr(q) is not the address of q"); return; }
 #ifdef GLM_FORCE_QUAT_DATA_WXYZ
@@ -473,16 +475,16 @@ template <typename F> static uint64_t named_member_digest(const Domain& rot) {
 
 template <typename F> static void reg(Engine& E, const std::vector<LQ>& base, const std::vector<size_t>& small_idx) {
   const std::string t = FT<F>::name(); const std::string T = "<" + t + ">";
-  Domain rotq = make_rot<F>("ROT_quick(" + t + "): integer quaternions {-2..2}^4, 120 icosians, 26 axes x 89 angles, 10^-j neighbourhoods of the 8 axis points, gimbal-lock set; each +-1 ulp per component", base, nullptr, {-1, 1});
+  Domain rotq = make_rot<F>("ROT_quick(" + t + "): integer quaternions {-2..2}^4, 120 icosians, 26 lattice axes x ANGLES, 10^-j neighbourhoods of the 8 axis points, gimbal-lock set; each +-1 ulp per component", base, nullptr, {-1, 1});
   Domain rott = make_rot<F>("ROT(" + t + "): as ROT_quick with +-1, +-2, +-3 ulp per component", base, nullptr, {-3, -2, -1, 1, 2, 3});
   Domain rots = make_rot<F>("ROT_small(" + t + "): {-1,0,1}^4, icosians, every 11th axis-angle point, samples of the near-axis and gimbal sets", base, &small_idx, {});
   std::vector<size_t> half; for (size_t i = 0; i < base.size(); i += 3) half.push_back(i);
-  Domain rotm = make_rot<F>("ROT_third(" + t + "): every third base point of ROT", base, &half, {});
+  Domain rot3 = make_rot<F>("ROT_third(" + t + "): every third base point of ROT", base, &half, {});
   Domain v3 = make_vec3l<F>(true), v3s = make_vec3l<F>(false);
   Domain tagv = rows("TAGVEC", 3, {FT<F>::bits(2), FT<F>::bits(3), FT<F>::bits(5), FT<F>::bits(-1), FT<F>::bits(F(0.5)), FT<F>::bits(F(0.25)), FT<F>::bits(0), FT<F>::bits(0), FT<F>::bits(1)});
   { Op& op = E.add("q*v = mat3_cast(q)*v = mat4_cast(q)*v = R(q)v" + T, op_rotvec<F>); op.quick = {product(rotq.name + " x " + v3s.name, {rotq, v3s}), product(rots.name + " x " + v3.name, {rots, v3})}; op.thorough = {product(rott.name + " x " + v3.name, {rott, v3})}; op.classes = QCLASSES; }
   { Op& op = E.add("quat_cast(mat3_cast(q)) = +-q" + T, op_castround<F>); op.quick = {rotq}; op.thorough = {rott}; op.classes = BRCLASSES; }
-  { Op& op = E.add("mat3_cast(q1*q2) = mat3_cast(q1)*mat3_cast(q2)" + T, op_product<F>); op.quick = {product(rots.name + "^2", {rots, rots})}; op.thorough = {product(rotm.name + "^2", {rotm, rotm})}; op.classes = QCLASSES; }
+  { Op& op = E.add("mat3_cast(q1*q2) = mat3_cast(q1)*mat3_cast(q2)" + T, op_product<F>); op.quick = {product(rots.name + "^2", {rots, rots})}; op.thorough = {product(rot3.name + "^2", {rot3, rot3})}; op.classes = QCLASSES; }
   { Op& op = E.add("angleAxis(angle(q), axis(q)) ~ q" + T, op_angleaxis_roundtrip<F>); op.quick = {rotq}; op.thorough = {rott}; op.classes = QCLASSES; }
   { std::vector<uint64_t> av; for (L a : rot_angles()) av.push_back(FT<F>::bits((F)a)); Domain ang = list("ANGLES(k pi/12, +-10^-j, +-(pi +- 10^-j), +-1, +-(2pi-1))", av);
     Op& op = E.add("axis-angle and single-axis forms = Rodrigues" + T, op_axisangle<F>); op.quick = {product("ANGLES x 26 lattice axes x TAGVEC", {ang, range("AXIS26", 0, 26, true), tagv})}; op.classes = {"angle~0 (mod 2pi)", "angle~pi (mod 2pi)", "generic"}; }
